@@ -27,6 +27,8 @@ GROUP = {
         U("ClearState", SY, [r"pub enum ClearState\b"], derive="Clone, Copy"),
         ("text", "posting_fmt_stub.rs"),
         ("text", "posting_fmt_spec.rs"),
+        ("text", "alignment_width.rs"),
+        ("text", "posting_fmt_theorems.rs"),
         U("print_clear_state", D, [r"fn print_clear_state\b"], fn="print_clear_state", lifetimes="keep", reveal_literals=True, rewrites=[RET()],
           contract="""
     ensures r@ == clear_mark(v),   // @print_clear_state.mark_of_the_state
@@ -42,7 +44,7 @@ GROUP = {
 """},
           body_start="""        proof {
             if self.value.amount is Some { lemma_value_align_inside(self.value.amount->Some_0.amount.v, *self.context); }
-            if self.value.balance is Some { lemma_value_align_inside(self.value.balance->Some_0.v, *self.context); }
+            if self.value.balance is Some { lemma_value_align_inside(self.value.balance->Some_0.v, *self.context); lemma_abs_le_width(self.value.balance->Some_0.v, *self.context); }
             reveal_strlit("    "); reveal_strlit(" @ "); reveal_strlit(" @@ "); reveal_strlit(" ="); reveal_strlit(" "); reveal_strlit(""); reveal_strlit("\\n"); reveal_strlit("    ; ");
             assert("    "@ =~= seq![' ', ' ', ' ', ' ']); assert(" @ "@ =~= seq![' ', '@', ' ']); assert(" @@ "@ =~= seq![' ', '@', '@', ' ']);
             assert(" ="@ =~= seq![' ', '=']); assert(" "@ =~= seq![' ']); assert(""@ =~= Seq::<char>::empty());
